@@ -88,6 +88,23 @@ def post_rows(raw_rows: List[Dict[str, Any]], next_art: int = -1) -> Tuple[List[
     return result + artificial, next_art
 
 
+@st.composite
+def boundary_to_date(draw: Any, case: Dict[str, Any]) -> Optional[str]:
+    """A to-date equal to the earlier of (own local date, UTC date) of a transaction for which the two differ: the transaction's
+    own date decides on which side of the to-date it falls, whatever its UTC date says.  None if there is no such transaction."""
+    candidates = []
+    for spec in case["assets"].values():
+        for _, rows in spec["tables"]:
+            for r in rows:
+                tx = model.make_tx(dict(r, row=1))
+                utc_day = model.local_date(tx.us, 0)
+                if utc_day != tx.day:
+                    candidates.append(min(utc_day, tx.day))
+    if not candidates:
+        return None
+    return draw(st.sampled_from(sorted(set(candidates)))).isoformat()
+
+
 def case_post_rows(case: Dict[str, Any]) -> Dict[str, List[Dict[str, Any]]]:
     """{asset: model rows} for a materialized case (all assets, numbering artificial ids like one CLI run does)."""
     next_art = -1
